@@ -17,7 +17,8 @@ functions accept -- not through a NumPy-vs-Dask comparison (that is C01's subjec
 Layer T3: stream `il:convolve2d` -- the ILang program `Gen.IL.convolve2d` (generated statement by statement from
 `_convolve_2d_numpy`; the subject of the refinement theorems `il_convolve_refines` / `il_conv_cell` / `il_conv_finite`) is run by
 the Lean driver and compared exactly with the numba-compiled function of /repo (il_corr.py); streams `il:meanNumpy`,
-`il:applyMean` ... `il:applyVar` do the same for the generated programs of `_mean_numpy` / `_apply_numpy` (translator validation only).
+`il:applyMean` ... `il:applyVar` do the same for the generated programs of `_mean_numpy` / `_apply_numpy` (the subjects of
+`il_mean_refines` / `il_apply_refines` / `il_apply_stats`; `_apply_numpy` computes in float32: compared within 1e-6 relative).
 """
 import json
 import math
@@ -874,9 +875,9 @@ def run(r, scale=1):
     # function: result array and both inputs after the call, compared exactly on exactly computable inputs
     il_corr.stream(r, ["convolve2d"], (600 if r.tier == "quick" else 6000) * scale)
     # the other focal programs of layer T3 (`_mean_numpy`, `_apply_numpy` bound to each of the seven statistic functions):
-    # translator validation only -- no refinement theorem yet, the model of Part A/B is tied to them by G + H above
+    # the subjects of il_mean_refines / il_apply_refines (Props/C09.lean Part D) against the numba functions
     il_corr.stream(r, ["meanNumpy", "applyMean", "applySum", "applyMin", "applyMax", "applyRange", "applyStd", "applyVar"],
-                   (100 if r.tier == "quick" else 1000) * scale)
+                   (300 if r.tier == "quick" else 3000) * scale)
     r.trusted += ["numba / numpy (np.nanmean, np.nansum, np.nanmin, np.nanmax, np.nanstd, np.nanvar are modelled by hand and "
                   "validated by the correspondence run)", "xarray DataArray construction"]
     r.assumptions += ["exact field arithmetic in the value theorems (float32 rounding covered by the correspondence run only)",
